@@ -235,7 +235,9 @@ def diff_data_type(v, tid, dt, where, out, seen=None):
             out.append(f"{where}: string length {dt.get('string')!r} != {data['array']}")
         tc = dt.get("type_class")
         if tc is not None and getattr(tc, "size", None) != t["string"]:
-            out.append(f"{where}: string capacity {getattr(tc, 'size', None)!r} != {t['string']}")
+            out.append(f"{where}: string data area {getattr(tc, 'size', None)!r} != structure size - 4 = {t['string']}")
+        if tc is not None and getattr(tc, "capacity", data["array"]) != data["array"]:
+            out.append(f"{where}: string capacity {getattr(tc, 'capacity', None)!r} != DATA length {data['array']}")
     elif "string" in dt:
         out.append(f"{where}: marked as a string but is not a LEN/DATA structure")
     it = dt.get("internal_tags", {})
